@@ -203,6 +203,8 @@ def run(tier):
         items.append((size, {"native": nat}, "abi-subs", inputs))
     for size, prog, inputs, lab in gen_ctrl.return_chains(4 if tier == "thorough" else 3):
         items.append((size, prog, "return-chain", inputs))
+    for size, prog, inputs, lab in gen_ctrl.typed_chains(3 if tier == "quick" else 4):
+        items.append((size, prog, "typed-chain", inputs))
     rep.bounds["recipes"] = len(items)
     for sh in common.pmap_shards(_worker, items, order_seed=rep.seed):
         rep.merge(sh)
